@@ -2388,6 +2388,9 @@ fn run() {
     let mut ps = Parsers::new();
     let mut rng = Rng::new(params.seed ^ 0xC19_B000);
     let part = params.get("part").unwrap_or("all").to_string();
+    if params.flag("daemonlog") {
+        let _ = env_logger::Builder::from_env(env_logger::Env::default().default_filter_or("info")).try_init();
+    }
     if part == "all" || part == "conv" {
         let n = params.n(60, 3000);
         for _ in 0..n {
@@ -2406,6 +2409,9 @@ fn run() {
                 break;
             }
             let hseed = rng.next_u64();
+            if params.get("only").is_some_and(|o| o.parse::<u64>().ok() != Some(k)) {
+                continue;
+            }
             let Some(out) = run_e2e(&mut Rng::new(hseed), &mut ps, &E2eParams { churn: false }, k) else {
                 rep.inconclusive("cannot build a tokio runtime");
                 break;
